@@ -50,6 +50,81 @@ Proof.
   split; [intro X; rewrite X in H1; discriminate|]. exists d. auto.
 Qed.
 
+(* without onObject in the expectations the object diagnoses are unreachable (the fragment of the earlier version of this check) *)
+Definition obj_kind (d : dkind) : bool := match d with DObjectMissing _ | DObjectUnexpected _ => true | _ => false end.
+Definition no_obj (xs : list mexp) : Prop := forall x, In x xs -> sx_obj (x_e x) = None.
+Definition liveM (f : name) (its : list item) (x : mexp) : bool := x_open x && (sx_f (x_e x) =? f) && agrees_upto (x_e x) its.
+Lemma first_dead_no_obj f xs : no_obj xs -> forall rest seen,
+  existsb (liveM f seen) xs = true ->
+  match first_dead f xs seen rest with
+  | Some (IObj _) => False
+  | Some _ => True
+  | None => existsb (liveM f (seen ++ rest)) xs = true
+  end.
+Proof.
+  intro NO. induction rest as [|p r IH]; intros seen H; cbn [first_dead].
+  - rewrite app_nil_r. exact H.
+  - fold (liveM f (seen ++ [p])). destruct (existsb (liveM f (seen ++ [p])) xs) eqn:E.
+    + specialize (IH (seen ++ [p]) E). rewrite <- app_assoc in IH. exact IH.
+    + destruct p as [n v|n b|a]; try exact I. rewrite <- E, <- H. apply existsb_ext'. intros x Hx. unfold liveM.
+      rewrite agrees_upto_app. unfold agrees_upto at 2. cbn. rewrite (NO x Hx). rewrite !andb_true_r. reflexivity.
+Qed.
+Lemma deviation_no_obj f its o xs : no_obj xs -> consume f its o xs = None -> obj_kind (fst (deviation f its xs)) = false.
+Proof.
+  intros NO CN. unfold deviation. destruct (existsb (fun x => x_open x && (sx_f (x_e x) =? f)) xs) eqn:OP; cbn [negb].
+  2: { destruct (0 <? _); reflexivity. }
+  assert (L0 : existsb (liveM f []) xs = true).
+  { rewrite <- OP. apply existsb_ext'. intros x _. unfold liveM. cbn. apply andb_true_r. }
+  pose proof (first_dead_no_obj f xs NO its [] L0) as FD. cbn [app] in FD.
+  destruct (first_dead f xs [] its) as [[n v|n b|a]|].
+  - destruct (existsb _ xs); reflexivity.
+  - destruct (existsb _ xs); reflexivity.
+  - destruct FD.
+  - apply existsb_exists in FD. destruct FD as [x [Hx Lx]]. cbn [fst].
+    destruct (existsb (fun x0 => x_open x0 && (sx_f (x_e x0) =? f) && agrees_upto (x_e x0) its && negb (params_covered (x_e x0) its)) xs) eqn:E; [reflexivity|].
+    exfalso. rewrite existsb_false in E. specialize (E x Hx). unfold liveM in Lx. rewrite Lx in E. cbn in E. apply negb_false_iff in E.
+    assert (M : x_open x && matches (x_e x) f its = true).
+    { apply andb_true_iff in Lx. destruct Lx as [Lx A]. apply andb_true_iff in Lx. destruct Lx as [O F]. rewrite O. unfold matches. rewrite F, A.
+      unfold covers. unfold params_covered in E. rewrite E, (NO x Hx). reflexivity. }
+    assert (X : exists xs' v, consume f its o xs = Some (xs', v)).
+    { clear - Hx M. induction xs as [|y r IH]; [destruct Hx|]. cbn. destruct Hx as [Hx|Hx].
+      - subst y. rewrite M. eauto.
+      - destruct (x_open y && matches (x_e y) f its); [eauto|]. destruct (IH Hx) as [xs' [v H]]. rewrite H. eauto. }
+    destruct X as [xs' [v X]]. congruence.
+Qed.
+Definition pend_ok (st : mst) : Prop := match s_pend st with Some d => obj_kind d = false | None => True end.
+Lemma m_calls_no_obj ign kn : forall cs st i a j d,
+  no_obj (s_xs st) -> pend_ok st -> mr_fail (m_calls ign kn st i cs a) = Some (j, d) -> obj_kind d = false.
+Proof.
+  induction cs as [|c r IH]; intros st i a j d NO PO H.
+  - cbn in H. unfold m_final in H. cbn in H. unfold pend_ok in PO. destruct (s_pend st) as [d0|].
+    + cbn in H. inversion H; subst. exact PO.
+    + cbn in H. destruct (existsb x_open (s_xs st) || false); [inversion H; reflexivity|].
+      destruct (existsb x_ooo (s_xs st) || false); [inversion H; reflexivity|discriminate H].
+  - cbn [m_calls] in H. unfold m_call in H. unfold pend_ok in PO. destruct (s_pend st) as [d0|] eqn:P.
+    + cbn in H. inversion H; subst. exact PO.
+    + destruct (ign && negb (kn (sc_f c))).
+      * apply (IH st _ _ j d NO) in H; [exact H|]. unfold pend_ok. rewrite P. exact I.
+      * destruct (consume (sc_f c) (sc_items c) (s_order st + 1) (s_xs st)) as [[xs' e]|] eqn:CS.
+        -- apply (IH _ _ _ j d) in H; [exact H| |exact I]. cbn [s_xs]. intros x Hx.
+           apply (in_map x_e) in Hx. rewrite (consume_xe _ _ _ _ _ _ CS) in Hx. apply in_map_iff in Hx. destruct Hx as [x0 [E Hx0]]. rewrite <- E. apply NO. exact Hx0.
+        -- pose proof (deviation_no_obj _ _ _ _ NO CS) as DV. destruct (deviation (sc_f c) (sc_items c) (s_xs st)) as [d1 df]. cbn [fst] in DV.
+           destruct (df && negb (sc_want c)).
+           ++ apply (IH _ _ _ j d) in H; [exact H|exact NO|]. unfold pend_ok. cbn. exact DV.
+           ++ cbn in H. inversion H; subst. exact DV.
+Qed.
+Lemma no_object_failure ops k i fl :
+  parse ops = Some k -> judged k = true -> (forall e, In e (k_exps k) -> sx_obj e = None) -> o_fail (run ops) = Some (i, fl) ->
+  (forall f, f_kind fl <> FObjectMissing f) /\ (forall f, f_kind fl <> FObjectUnexpected f).
+Proof.
+  intros Hp Hj NO Hf. destruct (no_impossible_failure ops k i fl Hp Hj Hf) as [_ [d [E D]]].
+  unfold expected, expected_res in E. cbn [fst] in E.
+  assert (K : obj_kind d = false).
+  { apply (m_calls_no_obj _ _ _ _ _ _ i d) in E; [exact E| |exact I]. cbn [mst0 s_xs]. intros x Hx. apply NO.
+    apply (in_map x_e) in Hx. rewrite xe_init in Hx. exact Hx. }
+  split; intros f X; rewrite X in D; cbn in D; inversion D; subst; discriminate K.
+Qed.
+
 (* a call is consumed iff some still-open expectation is exactly the call (same function, object, parameter set, outputs) *)
 Lemma call_succeeds_iff f ps o xs :
   (exists xs' v, consume f ps o xs = Some (xs', v)) <-> (exists x, In x xs /\ x_open x = true /\ matches (x_e x) f ps = true).
